@@ -32,7 +32,9 @@ namespace datasketches {
 
 template<typename T>
 struct gaussian_kernel {
-  T operator()(const std::vector<T>& v1, const std::vector<T>& v2) const {
+  // any pair of vector types: the sketch stores std::vector<T, Allocator>, queries come as std::vector<T>
+  template<typename V1, typename V2>
+  T operator()(const V1& v1, const V2& v2) const {
     return exp(-std::inner_product(v1.begin(), v1.end(), v2.begin(), 0.0, std::plus<T>(), [](T a, T b){return (a-b)*(a-b);}));
   }
 };
